@@ -18,12 +18,18 @@ class ListFile:
     def _nl(self, i):
         return '\n' if (self.final_newline or i < len(self.lines) - 1) else ''
 
-    def readline(self):
-        if self.i < len(self.lines):
-            l = self.lines[self.i]
+    def readline(self, size=-1):
+        rest = self.__dict__.pop('_rest', None)
+        if rest is None:
+            if self.i >= len(self.lines):
+                return ''
+            rest = self.lines[self.i] + self._nl(self.i)
             self.i += 1
-            return l + self._nl(self.i - 1)
-        return ''
+        if size is not None and 0 <= size < len(rest):
+            # a bounded read: the remainder of the line stays for the next call
+            self._rest = rest[size:]
+            return rest[:size]
+        return rest
 
     # the other reading styles a file object offers (a changed tree may use them)
     def read(self, size=-1):
